@@ -44,11 +44,18 @@ fn main() {
             if tier != "quick" && tier != "thorough" {
                 usage();
             }
+            // hard cap: a check that runs this long is a machinery error, never a verdict
+            let cap: u64 = std::env::var("GV_HARD_CAP").ok().and_then(|s| s.parse().ok()).unwrap_or(if tier == "quick" { 1500 } else { 6 * 3600 });
+            let _ = std::thread::spawn(move || {
+                std::thread::sleep(std::time::Duration::from_secs(cap));
+                eprintln!("gv: check exceeded its hard cap of {cap} s: machinery error, no verdict");
+                std::process::exit(2);
+            });
             let Some(mut chk) = props::build(&prop, &tier, seed) else {
                 eprintln!("gv: unknown property {prop}");
                 std::process::exit(2);
             };
-            let cfg = RunCfg { shard: None, only_space: None, prop: prop.clone(), tier: tier.clone(), workers, stall_secs: std::env::var("GV_STALL").ok().and_then(|s| s.parse().ok()).unwrap_or(60), seed };
+            let cfg = RunCfg { shard: None, only_space: None, prop: prop.clone(), tier: tier.clone(), workers, stall_secs: std::env::var("GV_STALL").ok().and_then(|s| s.parse().ok()).unwrap_or(if tier == "quick" { 20 } else { 60 }), seed };
             let mut out = core::run_spaces(&cfg, &chk.spaces);
             if let Some(post) = chk.post.take() {
                 let t = std::time::Instant::now();
